@@ -17,6 +17,7 @@ func genMapCase(t *rapid.T) MapCase {
 	c := MapCase{
 		Cmp:  rapid.SampledFrom([]string{"nat", "nat", "rev", "half"}).Draw(t, "cmp"),
 		Zero: rapid.IntRange(0, 19).Draw(t, "zero") == 0,
+		Mag:  rapid.SampledFrom([]int{0, 0, 1, 1, 2}).Draw(t, "mag"),
 	}
 	gop := rapid.Custom(func(t *rapid.T) MOp {
 		return MOp{Kind: rapid.SampledFrom(mopKinds).Draw(t, "k"), A: rapid.IntRange(0, 600).Draw(t, "a"), B: rapid.IntRange(0, 1).Draw(t, "b")}
